@@ -53,21 +53,27 @@ def class_members(items):
 
 def regex_rule(ck):
     """cf_safe_name: the substitution must replace exactly the characters outside [A-Za-z0-9_] by an allowed character, and the
-    guard must recognise every leading digit (it prefixes a letter)."""
+    guard must recognise every leading digit (it prefixes a letter).  The regular expressions are taken from the function's own
+    uses of the re module while it is interpreted (however the pattern reaches the call: literal, module constant, compiled)."""
     import re._parser as sp
     import re._constants as sc
-    mod = ck.repo.module('ioos_qc.utils')
-    fn = ck.repo.function('ioos_qc.utils', 'cf_safe_name')
-    subs, guards = [], []
-    for node in ast.walk(fn):
-        if isinstance(node, ast.Call) and isinstance(node.func, ast.Attribute) and isinstance(node.func.value, ast.Name) and node.func.value.id == 're':
-            lits = [a.value for a in node.args if isinstance(a, ast.Constant) and isinstance(a.value, str)]
-            if node.func.attr == 'sub' and len(lits) >= 2:
-                subs.append((lits[0], lits[1], node))
-            elif node.func.attr in ('match', 'search', 'fullmatch') and lits:
-                guards.append((lits[0], node.func.attr, node))
-    if not subs:
-        raise AnalysisError('cf_safe_name: no re.sub(pattern, replacement, ...) with literal pattern found (idiom outside the analysed subset)')
+    it = ck.runner.interp
+    cf = it.module('ioos_qc.utils').globals['cf_safe_name']
+    n0 = len(it.events)
+    for s_ in ('9a b.c', 'abc', '_x-1'):
+        try:
+            it.call(cf, [s_], {}, None)
+        except AbsRaise:
+            pass
+    uses = []
+    for e in it.events[n0:]:
+        if e['kind'] == 'regex' and (e['fn'], e['pattern'], e['repl']) not in [(u['fn'], u['pattern'], u['repl']) for u in uses]:
+            uses.append(e)
+    subs = [(u['pattern'], u['repl'], u['node']) for u in uses if u['fn'] == 'sub']
+    guards = [(u['pattern'], u['fn'], u['node']) for u in uses if u['fn'] in ('match', 'search', 'fullmatch')]
+    ck.regex_uses = len(uses)
+    if not uses:
+        return      # no regular expression involved: the per-character enumeration (char_rule) decides alone
     for pat, repl, node in subs:
         parsed = list(sp.parse(pat))
         # a sequence of one (possibly repeated) class
@@ -119,7 +125,14 @@ def concrete_flags(vec):
         elif X.is_num(e.d):
             out.append(int(e.d[1]))
         else:
-            out.append(X.show(e.d))
+            # a flag that depends on an uninterpreted function of concrete numbers (sqrt(2) > 1 ...): evaluate in floating point
+            try:
+                from ..cells import fflag, fval
+                fl = fflag(e.d, {}) if e.d[0] == 'ite' else {fval(e.d, {})}
+                fl = sorted(fl)
+                out.append(int(fl[0]) if len(fl) == 1 and float(fl[0]).is_integer() else X.show(e.d))
+            except (KeyError, ValueError, TypeError, ZeroDivisionError, OverflowError):
+                out.append(X.show(e.d))
     return out
 
 
@@ -134,15 +147,34 @@ def rollup(cols):
     return out
 
 
+def char_rule(ck):
+    """every ASCII character, in the middle of a name and in front of it, through the interpreted cf_safe_name"""
+    it = ck.runner.interp
+    cf = it.module('ioos_qc.utils').globals['cf_safe_name']
+    for c in map(chr, range(128)):
+        for text, pos in (('a' + c + 'b', 1), (c + 'xy', 0), ('ab' + c, 2)):
+            try:
+                got = it.call(cf, [text], {}, None)
+            except AbsRaise as e:
+                got = f'raises {e.exc.tname}'
+            ok = isinstance(got, str) and is_cf_safe(got) and len(got) >= len(text)
+            if ok:
+                tail = got[len(got) - len(text):]
+                ok = all((a == b) if b in ALLOWED else (a in ALLOWED) for a, b in zip(tail, text))
+            ck.ob('C19.chars', f'cf_safe_name({text!r})', ok, key='cf_safe_name:character',
+                  what=f'cf_safe_name({text!r}) gives {got!r}: legal characters must be kept in place, every other one replaced by a legal one, and the result must not start with a digit')
+
+
 def run(ck):
     ck.explanation = (
-        'Decided (1) structurally: the regular expressions of cf_safe_name are parsed (re._parser): the substitution class is exactly the complement of '
-        '[A-Za-z0-9_], the replacement is CF-safe and a start-anchored guard covers every leading digit - for all strings; (2) by abstract interpretation of '
+        'Decided (1) structurally: the regular expressions cf_safe_name uses (collected from its own re calls while it is interpreted, so literal, constant and compiled patterns alike) are parsed (re._parser): the substitution class is exactly the complement of '
+        '[A-Za-z0-9_], the replacement is CF-safe and a start-anchored guard covers every leading digit - for all strings; plus every ASCII character in front, middle and end position through the interpreted function; (2) by abstract interpretation of '
         'PandasStore.__init__ / compute_aggregate / save on the (interpreted) stream results of a concrete table with stream ids containing illegal characters, '
         'for every combination of write_data / write_axes and include / exclude lists (by stream id, test name, function, none): one row per input row in order, '
         'exactly the expected columns, names <stream>_<module>_<test> made CF-safe, values equal to the collected flags (empty where not evaluated), axis and '
         'data columns equal to the source, roll-up column equal to the precedence maximum of all test columns.')
     regex_rule(ck)
+    char_rule(ck)
     r = ck.runner
     it = r.interp
     utils = it.module('ioos_qc.utils')
@@ -210,7 +242,9 @@ def run(ck):
         except AbsRaise as e:
             ck.violate('C19.save', f'PandasStore.save:defaults-raise-{e.exc.tname}', f'{fe}: save() raises {e.exc}')
     ck.floor('C19.columns', 40)
-    ck.floor('C19.regex', 3)
+    if getattr(ck, 'regex_uses', 0):
+        ck.floor('C19.regex', 3)
+    ck.floor('C19.chars', 384)
 
 
 def show_filter(f):
